@@ -566,6 +566,134 @@ struct CloudOut {
     refused: bool,
 }
 
+/// A local store that stops accepting writes after a given number of write operations (a power
+/// cut in the middle of a commit); reads keep working so that the result can be inspected.
+struct Faulty {
+    inner: MemoryKVVStore,
+    /// write operations still allowed; negative = unlimited
+    left: std::sync::Arc<std::sync::atomic::AtomicI64>,
+}
+impl Faulty {
+    fn gate(&self) -> Result<(), PErr> {
+        let l = self.left.load(Ordering::SeqCst);
+        if l < 0 {
+            return Ok(());
+        }
+        if l == 0 {
+            return Err(PErr::Internal("power cut".into()));
+        }
+        self.left.store(l - 1, Ordering::SeqCst);
+        Ok(())
+    }
+}
+impl lightning_signer::SendSync for Faulty {}
+impl KVVStore for Faulty {
+    type Iter = <MemoryKVVStore as KVVStore>::Iter;
+    fn put(&self, k: &str, v: Vec<u8>) -> Result<(), PErr> {
+        self.gate()?;
+        self.inner.put(k, v)
+    }
+    fn put_with_version(&self, k: &str, ver: u64, v: Vec<u8>) -> Result<(), PErr> {
+        self.gate()?;
+        self.inner.put_with_version(k, ver, v)
+    }
+    fn put_batch(&self, kvvs: Vec<KVV>) -> Result<(), PErr> {
+        self.gate()?;
+        self.inner.put_batch(kvvs)
+    }
+    fn get(&self, k: &str) -> Result<Option<(u64, Vec<u8>)>, PErr> {
+        self.inner.get(k)
+    }
+    fn get_version(&self, k: &str) -> Result<Option<u64>, PErr> {
+        self.inner.get_version(k)
+    }
+    fn get_prefix(&self, p: &str) -> Result<Self::Iter, PErr> {
+        self.inner.get_prefix(p)
+    }
+    fn delete(&self, k: &str) -> Result<(), PErr> {
+        self.gate()?;
+        self.inner.delete(k)
+    }
+    fn clear_database(&self) -> Result<(), PErr> {
+        self.inner.clear_database()
+    }
+    fn reset_versions(&self) -> Result<(), PErr> {
+        self.inner.reset_versions()
+    }
+    fn put_batch_unlogged(&self, kvvs: Vec<KVV>) -> Result<(), PErr> {
+        self.gate()?;
+        self.inner.put_batch_unlogged(kvvs)
+    }
+    fn signer_id(&self) -> lightning_signer::persist::SignerId {
+        self.inner.signer_id()
+    }
+}
+
+/// The history replayed on a cloud store over a `Faulty` local store whose write budget is armed
+/// right before the final commit: whatever the interruption point, the local store afterwards
+/// holds either none or all of the mutations the transaction reported.
+fn cloud_commit_crash_points(hist: &[COp]) -> (u64, Vec<(String, String)>) {
+    let mut vios = vec![];
+    let mut points = 0u64;
+    for budget in 0..6i64 {
+        let left = std::sync::Arc::new(std::sync::atomic::AtomicI64::new(-1));
+        let cloud = CloudKVVStore::new(Faulty { inner: MemoryKVVStore::new([9u8; 16]), left: left.clone() });
+        let dump_local = |c: &CloudKVVStore<Faulty>| -> Dump {
+            let mut d = Dump::new();
+            if let Ok(it) = c.get_prefix("") {
+                for kvv in it {
+                    d.insert(kvv.0, (kvv.1 .0, kvv.1 .1));
+                }
+            }
+            d
+        };
+        for o in hist {
+            match o {
+                COp::Enter => {
+                    let _ = cloud.enter();
+                }
+                COp::PrepareCommit => {
+                    let _ = cloud.prepare();
+                    let _ = cloud.commit();
+                }
+                COp::Put(k, v) => {
+                    let _ = cloud.put(k, v.clone());
+                }
+                COp::PutV(k, ver, v) => {
+                    let _ = cloud.put_with_version(k, *ver, v.clone());
+                }
+                COp::Delete(k) => {
+                    let _ = cloud.delete(k);
+                }
+                _ => {}
+            }
+        }
+        let before = dump_local(&cloud);
+        let muts = cloud.prepare();
+        let mut expect = before.clone();
+        for (k, (ver, v)) in muts.iter() {
+            expect.insert(k.clone(), (*ver, v.clone()));
+        }
+        // arm the budget for the commit only
+        left.store(budget, Ordering::SeqCst);
+        let r = catch(|| cloud.commit());
+        left.store(-1, Ordering::SeqCst);
+        let after = dump_local(&cloud);
+        points += 1;
+        if after != before && after != expect {
+            vios.push((
+                "C16:cloud:interrupted-commit-applied-partly".into(),
+                format!("local write budget {} during commit ({:?}): the local store holds {:?}, neither the state before {:?} nor before + the reported mutations {:?}", budget, r.map(|x| x.is_ok()), after, before, expect),
+            ));
+        }
+        if after == expect {
+            // the commit went through: larger budgets add nothing
+            break;
+        }
+    }
+    (points, vios)
+}
+
 fn cloud_replay(hist: &[COp], op: &COp) -> CloudOut {
     let mut vios = vec![];
     let cloud = CloudKVVStore::new(MemoryKVVStore::new([9u8; 16]));
@@ -585,6 +713,11 @@ fn cloud_replay(hist: &[COp], op: &COp) -> CloudOut {
                 txw.clear();
             }
             COp::PrepareCommit => {
+                if check {
+                    // every interruption point of this commit, on a twin store
+                    let (_pts, cv) = cloud_commit_crash_points(hist);
+                    vios.extend(cv);
+                }
                 let muts = cloud.prepare();
                 let local_mid: Dump = dump_store(&LocalView(&cloud));
                 if check && local_mid != local_before {
